@@ -4,6 +4,7 @@ import (
 	"fmt"
 	"go/token"
 	"go/types"
+	"sort"
 	"strings"
 
 	"golang.org/x/tools/go/ssa"
@@ -46,6 +47,61 @@ func runC12(c *core.Ctx) {
 	ruleRemovalKeys(c)
 	c.Doc("C12.no-panic", "no explicit panic on the message-receiving path", 1)
 	ruleNoPanicInReceive(c)
+	c.Doc("C12.locks", "bus/**: every mutex released on every path (a leaked lock wedges the object/service for every client); no blocking channel operation while a mutex is held", 30)
+	ruleBusLocks(c, lc)
+}
+
+// ruleBusLocks: lock pairing over the whole bus tree and no blocking channel
+// operation under a held mutex.
+func ruleBusLocks(c *core.Ctx, lc *core.LockCache) {
+	const rule = "C12.locks"
+	var fns []*ssa.Function
+	for _, fn := range c.RepoFuncs("bus") {
+		if c.IsTestFile(fn) {
+			continue
+		}
+		fns = append(fns, fn)
+	}
+	lockPairing(c, lc, rule, fns)
+	for _, fn := range fns {
+		lf := lc.Get(fn)
+		if lf.Ops == 0 {
+			continue
+		}
+		n := 0
+		for _, b := range fn.Blocks {
+			for _, in := range b.Instrs {
+				what := ""
+				switch x := in.(type) {
+				case *ssa.Send:
+					what = "channel send"
+				case *ssa.Select:
+					if x.Blocking {
+						what = "blocking select"
+					}
+				case *ssa.UnOp:
+					if x.Op == token.ARROW {
+						what = "channel receive"
+					}
+				}
+				if what == "" {
+					continue
+				}
+				held := lf.MayHeld(in)
+				if len(held) == 0 {
+					continue
+				}
+				n++
+				var names []string
+				for k := range held {
+					names = append(names, k.String())
+				}
+				sort.Strings(names)
+				c.Fail(rule, fmt.Sprintf("blocking-under-lock@%s#%d", core.FuncKey(fn), n), in.Pos(),
+					what+" while "+strings.Join(names, ", ")+" is held: a full queue / slow peer keeps the lock and stalls every other user of it (with a writer waiting, every reader too)")
+			}
+		}
+	}
 }
 
 // ruleFullQueueError: in dispatch, on the default arm of the select, a Call is
